@@ -714,3 +714,519 @@ Section Phases.
     intros j jt [Ej | Hin]; [|eauto]. inversion Ej; subst. eapply chain_placed; [exact C|]. rewrite E, is_placed_cons, Nat.eqb_refl. reflexivity.
   Qed.
 End Phases.
+
+(* ============================================================================= invariants of phase 1.4 *)
+Section Phase14Inv.
+  Variable colflow : bool.
+  Variable dense : bool.
+  Variables is1 is2 if1 : Z.
+
+  Definition snd_within (it : item) : Prop :=
+    forall k z, get_placement (snd_s colflow it) (snd_e colflow it) = Some (k, z) -> is1 <= k /\ k + z <= is2.
+
+  Lemma step14_inv st i it st' :
+    rem_ok colflow is1 is2 it -> snd_within it -> if1 <= st_cf st -> is1 <= st_cs st ->
+    step14 colflow dense is1 is2 if1 st (i, it) = Ok st' ->
+    exists a, st_log st' = (i, a) :: st_log st /\ if1 <= st_cf st' /\ is1 <= st_cs st' /\
+              (dense = false -> st_cf st <= st_cf st') /\
+              if1 <= fst (first_of colflow a) /\
+              (is1 <= fst (second_of colflow a) /\ fst (second_of colflow a) + snd (second_of colflow a) <= is2) /\
+              (get_placement (snd_s colflow it) (snd_e colflow it) = None -> dense = false ->
+               fst (first_of colflow a) = st_cf st').
+  Proof.
+    intros [V [N F]] W Hcf Hcs. apply get_placement_none in N as [N1 N2]. destruct (valid_first colflow it V) as [V1 [V2 [V3 V4]]].
+    unfold step14. destruct (get_placement (snd_s colflow it) (snd_e colflow it)) as [[si ssz]|] eqn:E.
+    - destruct (W si ssz E) as [W1 W2]. destruct dense.
+      + destruct (first_search colflow _ false _ _ if1 si ssz _ if1) as [[[k fi] fsz]|] eqn:S; [|discriminate].
+        apply first_search_result in S as [S0 [S1 [S2 S3]]]. intros H; inversion H; subst; cbn.
+        eexists; split; [reflexivity|]. rewrite first_of_mk, second_of_mk. cbn. repeat split; try lia; discriminate.
+      + destruct (fst_s colflow it) eqn:Efs; [| discriminate N1 |].
+        * match goal with |- context[first_search colflow ?f true GAuto ?e ?c si ssz ?p ?k] =>
+            destruct (first_search colflow f true GAuto e c si ssz p k) as [[[k' fi] fsz]|] eqn:S end; [|discriminate].
+          apply first_search_result in S as [S0 [S1 [S2 S3]]]. intros H; inversion H; subst; cbn.
+          eexists; split; [reflexivity|]. rewrite first_of_mk, second_of_mk. cbn.
+          repeat split; try lia; try discriminate; split_ifs; lia.
+        * destruct (st_stale st); [|discriminate].
+          match goal with |- context[stale_search ?a ?b ?c ?d ?e ?f ?g ?h] =>
+            destruct (stale_search a b c d e f g h) as [[[k' fi] fsz]|] eqn:S end; [|discriminate].
+          apply stale_search_result in S as [S0 [S1 [S2 S3]]]. intros H; inversion H; subst; cbn.
+          eexists; split; [reflexivity|]. rewrite first_of_mk, second_of_mk. cbn.
+          repeat split; try lia; try discriminate; split_ifs; lia.
+    - specialize (F eq_refl). apply get_placement_none in E as [N3 N4].
+      match goal with |- context[auto_loop ?a ?b ?c ?d ?e ?f ?g ?h ?i ?j ?k ?l] =>
+        destruct (auto_loop a b c d e f g h i j k l) as [[[[[a' fi] fsz] cf'] if2']|] eqn:S end; [|discriminate].
+      apply auto_loop_result in S as [S1 [S2 [cs' [S3 [S4 S]]]]].
+      pose proof (scan_second_first colflow is2 _ _ _ _ _ _ _ _ _ N1 N2 V1 V2 S) as [Q1 Q2].
+      apply scan_second_result in S as [_ [k' [z [Hk [Ea [Ez [Hfit [Z1 Z2]]]]]]]].
+      destruct (place_at_valid _ _ k' N3 N4 V3 V4) as [Ep _]. rewrite Ep in Ea, Hfit. cbn [fst] in Ea, Hfit.
+      intros H; inversion H; subst; cbn.
+      eexists; split; [reflexivity|]. rewrite first_of_mk, second_of_mk. cbn [fst snd].
+      assert (is1 <= cs') by (destruct S3 as [-> | ->]; [destruct dense; lia | lia]).
+      repeat split; try lia; try (destruct dense; lia); try (split_ifs; lia).
+  Qed.
+
+  Lemma phase14_inv rem : forall st st',
+    (forall i it, In (i, it) rem -> rem_ok colflow is1 is2 it /\ snd_within it) ->
+    if1 <= st_cf st -> is1 <= st_cs st ->
+    phase14 colflow dense is1 is2 if1 rem st = Ok st' ->
+    if1 <= st_cf st' /\ is1 <= st_cs st' /\ (dense = false -> st_cf st <= st_cf st') /\
+    exists new, st_log st' = new ++ st_log st /\ map fst new = rev (map fst rem) /\
+      forall p, In p new -> if1 <= fst (first_of colflow (snd p)) /\ is1 <= fst (second_of colflow (snd p)) /\
+                           fst (second_of colflow (snd p)) + snd (second_of colflow (snd p)) <= is2.
+  Proof.
+    induction rem as [|[i it] r IH]; intros st st' Hr Hcf Hcs; cbn [phase14].
+    { intros H; inversion H; subst. split; [lia|]. split; [lia|]. split; [intros; lia|].
+      exists []. split; [reflexivity|]. split; [reflexivity | intros ? []]. }
+    destruct (step14 colflow dense is1 is2 if1 st (i, it)) as [st1| | |] eqn:S; try discriminate.
+    destruct (Hr i it (or_introl eq_refl)) as [R1 R2].
+    destruct (step14_inv _ _ _ _ R1 R2 Hcf Hcs S) as [a [E [A1 [A2 [A3 [A4 [A5 A6]]]]]]].
+    intros H.
+    assert (Hr' : forall j jt, In (j, jt) r -> rem_ok colflow is1 is2 jt /\ snd_within jt) by (intros j jt Hj; apply (Hr j jt); right; exact Hj).
+    destruct (IH st1 st' Hr' A1 A2 H) as [B1 [B2 [B3 [new [E' [M P]]]]]].
+    split; [lia|]. split; [lia|]. split; [intros D; specialize (A3 D); specialize (B3 D); lia|].
+    exists (new ++ [(i, a)]). rewrite <- app_assoc. cbn [app]. rewrite <- E. split; [exact E'|]. split.
+    - rewrite map_app, M. cbn. reflexivity.
+    - intros p Hp. apply in_app_or in Hp as [Hp | [<- | []]]; [auto|]. cbn [snd]. tauto.
+  Qed.
+
+  (* sparse packing: cursor_first never decreases, and a fully automatic item is placed on cursor_first *)
+  Lemma phase14_app r1 r2 st :
+    phase14 colflow dense is1 is2 if1 (r1 ++ r2) st =
+    match phase14 colflow dense is1 is2 if1 r1 st with
+    | Ok st1 => phase14 colflow dense is1 is2 if1 r2 st1
+    | CrashUnbound => CrashUnbound | Hang => Hang | OutOfFuel => OutOfFuel
+    end.
+  Proof.
+    revert st. induction r1 as [|c r IH]; intros st; cbn [app phase14]; [reflexivity|].
+    destruct (step14 colflow dense is1 is2 if1 st c); auto.
+  Qed.
+End Phase14Inv.
+
+(* ---------------------------------------------------------------------------------- more on the phases *)
+
+Lemma phase11_only_def its : forall l i,
+  is_placed i (phase11 its l) = true -> is_placed i l = true \/ exists it, In (i, it) its /\ definite_item it = true.
+Proof.
+  induction its as [|[j jt] r IH]; intros l i; cbn [phase11]; [auto|].
+  destruct (get_placement (col_s jt) (col_e jt)) as [[x w]|] eqn:E1;
+    [destruct (get_placement (row_s jt) (row_e jt)) as [[y h]|] eqn:E2|]; intros H; apply IH in H.
+  - destruct H as [H | [it [H1 H2]]]; [|right; exists it; split; [right|]; assumption].
+    rewrite is_placed_cons in H. apply orb_true_iff in H as [H | H]; [|auto].
+    apply Nat.eqb_eq in H. subst. right. exists jt. split; [left; reflexivity|]. unfold definite_item. rewrite E1, E2. reflexivity.
+  - destruct H as [H | [it [H1 H2]]]; [auto | right; exists it; split; [right|]; assumption].
+  - destruct H as [H | [it [H1 H2]]]; [auto | right; exists it; split; [right|]; assumption].
+Qed.
+
+Lemma phase12_only_first colflow dense ch : forall l l' i,
+  phase12 colflow dense ch l = Some l' -> is_placed i l' = true ->
+  is_placed i l = true \/ exists it p, In (i, it) ch /\ get_placement (fst_s colflow it) (fst_e colflow it) = Some p.
+Proof.
+  induction ch as [|[j jt] r IH]; intros l l' i; cbn [phase12].
+  { intros H; inversion H; subst; auto. }
+  destruct (is_placed j l) eqn:P.
+  { intros H Q. destruct (IH _ _ _ H Q) as [A | [it [p [A B]]]]; [auto | right; exists it, p; split; [right|]; assumption]. }
+  destruct (get_placement (fst_s colflow jt) (fst_e colflow jt)) as [fp|] eqn:E1.
+  2:{ intros H Q. destruct (IH _ _ _ H Q) as [A | [it [p [A B]]]]; [auto | right; exists it, p; split; [right|]; assumption]. }
+  destruct (second_placement colflow dense fp _ _ (areas l)) as [sp|]; [|discriminate].
+  intros H Q. destruct (IH _ _ _ H Q) as [A | [it [p [A B]]]]; [|right; exists it, p; split; [right|]; assumption].
+  rewrite is_placed_cons in A. apply orb_true_iff in A as [A | A]; [|auto].
+  apply Nat.eqb_eq in A. subst. right. exists jt, fp. split; [left; reflexivity | exact E1].
+Qed.
+
+Lemma phase132_filter colflow ch l : forall b,
+  snd (phase132 colflow ch l b) =
+  filter (fun p => match lookup_area (fst p) l with None => true | Some _ => false end) ch.
+Proof.
+  induction ch as [|[i it] r IH]; intros b; cbn [phase132 filter fst]; [reflexivity|].
+  destruct (lookup_area i l) as [a|].
+  - destruct (second_of colflow a). apply IH.
+  - match goal with |- context[phase132 colflow r l ?bb] => specialize (IH bb); destruct (phase132 colflow r l bb) end.
+    cbn [snd] in *. rewrite IH. reflexivity.
+Qed.
+
+Lemma ins_child_fst p l : forall x, In x (map fst (ins_child p l)) <-> x = fst p \/ In x (map fst l).
+Proof.
+  intros x. rewrite !in_map_iff. split.
+  - intros [q [<- H]]. apply ins_child_in in H as [-> | H]; [auto | right; exists q; auto].
+  - intros [-> | [q [<- H]]]; [exists p | exists q]; split; auto; apply ins_child_in; auto.
+Qed.
+Lemma ins_child_nodup p l : ~ In (fst p) (map fst l) -> NoDup (map fst l) -> NoDup (map fst (ins_child p l)).
+Proof.
+  induction l as [|q r IH]; cbn; intros H1 H2; [constructor; [tauto | constructor]|].
+  destruct (order (snd p) <=? order (snd q)); cbn.
+  - constructor; [cbn in H1; exact H1 | exact H2].
+  - inversion H2; subst. constructor.
+    + rewrite ins_child_fst. intros [E | E]; [apply H1; left; auto | auto].
+    + apply IH; [intros E; apply H1; right; exact E | assumption].
+Qed.
+Lemma sort_children_nodup l : NoDup (map fst l) -> NoDup (map fst (sort_children l)).
+Proof.
+  unfold sort_children. induction l as [|p r IH]; cbn [fold_right]; [auto|]. intros H. cbn [map] in H.
+  inversion H; subst. apply ins_child_nodup; [|apply IH; assumption].
+  intros E. apply H2. apply in_map_iff in E as [q [E1 E2]]. apply (sort_children_in q r) in E2.
+  apply in_map_iff. exists q; auto.
+Qed.
+Lemma index_from_nodup {A} (l : list A) k : NoDup (map fst (index_from k l)).
+Proof.
+  revert k. induction l as [|a r IH]; intros k; cbn; constructor; [|apply IH].
+  intros E. apply in_map_iff in E as [[j b] [E1 E2]]. cbn in E1. subst. apply index_from_in in E2. lia.
+Qed.
+Lemma nodup_fst_unique {A} (l : list (nat * A)) i a b : NoDup (map fst l) -> In (i, a) l -> In (i, b) l -> a = b.
+Proof.
+  induction l as [|[j c] r IH]; cbn; [tauto|]. intros H. inversion H as [|? ? Hn Hd]; subst.
+  intros [E1 | H1] [E2 | H2].
+  - congruence.
+  - inversion E1; subst. exfalso. apply Hn. apply in_map_iff. exists (i, b); auto.
+  - inversion E2; subst. exfalso. apply Hn. apply in_map_iff. exists (i, a); auto.
+  - auto.
+Qed.
+
+Lemma lookup_app_not_in i new l : ~ In i (map fst new) -> lookup_area i (new ++ l) = lookup_area i l.
+Proof.
+  induction new as [|[j a] r IH]; cbn; [auto|]. intros H. destruct (Nat.eqb j i) eqn:E.
+  - apply Nat.eqb_eq in E. subst. tauto.
+  - apply IH. tauto.
+Qed.
+
+Lemma in_lookup i a l : NoDup (map fst l) -> In (i, a) l -> lookup_area i l = Some a.
+Proof.
+  induction l as [|[j b] r IH]; cbn; [tauto|]. intros H. inversion H; subst. intros [E | Hin].
+  - inversion E; subst. rewrite Nat.eqb_refl. reflexivity.
+  - destruct (Nat.eqb j i) eqn:E; [|auto]. apply Nat.eqb_eq in E. subst. exfalso. apply H2.
+    apply in_map_iff. exists (i, a); auto.
+Qed.
+Lemma is_placed_in i l : is_placed i l = true <-> In i (map fst l).
+Proof.
+  unfold is_placed. rewrite existsb_exists, in_map_iff. split.
+  - intros [p [H E]]. apply Nat.eqb_eq in E. exists p; auto.
+  - intros [p [E H]]. exists p. split; [auto | apply Nat.eqb_eq; auto].
+Qed.
+
+Lemma phase11_nodup its : forall l,
+  NoDup (map fst its) -> (forall i, In i (map fst its) -> is_placed i l = false) -> NoDup (map fst l) ->
+  NoDup (map fst (phase11 its l)).
+Proof.
+  induction its as [|[i it] r IH]; intros l H1 H2 H3; cbn [phase11]; [exact H3|].
+  cbn in H1. inversion H1; subst.
+  destruct (get_placement (col_s it) (col_e it)) as [[x w]|]; [destruct (get_placement (row_s it) (row_e it)) as [[y h]|]|];
+    apply IH; auto; try (intros j Hj; apply H2; right; exact Hj).
+  - intros j Hj. rewrite is_placed_cons. rewrite (H2 j (or_intror Hj)).
+    destruct (Nat.eqb i j) eqn:E; [|reflexivity]. apply Nat.eqb_eq in E. subst. contradiction.
+  - cbn. constructor; [|exact H3]. intros E. apply is_placed_in in E. rewrite (H2 i (or_introl eq_refl)) in E. discriminate.
+Qed.
+
+Lemma phase12_nodup colflow dense ch : forall l l',
+  NoDup (map fst l) -> phase12 colflow dense ch l = Some l' -> NoDup (map fst l').
+Proof.
+  induction ch as [|[i it] r IH]; intros l l' H; cbn [phase12]; [intros E; inversion E; subst; exact H|].
+  destruct (is_placed i l) eqn:P; [apply IH; exact H|].
+  destruct (get_placement (fst_s colflow it) (fst_e colflow it)) as [fp|]; [|apply IH; exact H].
+  destruct (second_placement colflow dense fp _ _ (areas l)) as [sp|]; [|discriminate].
+  apply IH. cbn. constructor; [|exact H]. intros E. apply is_placed_in in E. congruence.
+Qed.
+
+Definition fully_auto (it : item) : Prop :=
+  get_placement (col_s it) (col_e it) = None /\ get_placement (row_s it) (row_e it) = None.
+
+Definition valid_items (items : list item) : Prop := forall it, In it items -> item_valid it = true.
+
+(* ------------------------------------------------------------------------------ the whole of step 1 *)
+
+Definition bounds_of (colflow : bool) (if1 if2 is1 is2 : Z) : Z * Z * Z * Z :=
+  if colflow then (if1, if2, is1, is2) else (is1, is2, if1, if2).
+
+Lemma grid_place_setup tc tr colflow dense items : valid_items items ->
+  let doc := index_from 0 items in
+  let children := sort_children doc in
+  exists l1 l2 is1 is2 if1 if2 rem,
+    l1 = phase11 doc [] /\
+    (forall p, In p l1 -> area_pos (snd p) /\ exists it, In (fst p, it) doc /\ definite_item it = true) /\
+    phase12 colflow dense children l1 = Some l2 /\ chain l1 l2 /\ NoDup (map fst l2) /\
+    rem = filter (fun p => match lookup_area (fst p) l2 with None => true | Some _ => false end) children /\
+    (forall i it, In (i, it) rem -> rem_ok colflow is1 is2 it /\ snd_within colflow is1 is2 it) /\
+    (forall p, In p l2 -> if1 <= fst (first_of colflow (snd p)) /\ is1 <= fst (second_of colflow (snd p)) /\
+                          fst (second_of colflow (snd p)) + snd (second_of colflow (snd p)) <= is2) /\
+    (forall i it, In (i, it) children -> fully_auto it -> In (i, it) rem) /\
+    (forall i it, In (i, it) children -> is_placed i l2 = true \/ In (i, it) rem) /\
+    grid_place_log tc tr colflow dense items =
+      match phase14 colflow dense is1 is2 if1 rem (mkState l2 if1 is1 if2 None) with
+      | Ok st => Ok (st_log st, bounds_of colflow if1 (st_if2 st) is1 is2)
+      | CrashUnbound => CrashUnbound | Hang => Hang | OutOfFuel => OutOfFuel
+      end.
+Proof.
+  intros Hval doc children.
+  assert (Hdoc : forall i it, In (i, it) doc -> item_valid it = true).
+  { intros i it H. apply index_from_in in H as [_ H]. apply Hval. eapply nth_error_In; eauto. }
+  assert (Hch : forall i it, In (i, it) children -> In (i, it) doc) by (intros; apply sort_children_in; auto).
+  assert (NDdoc : NoDup (map fst doc)) by apply index_from_nodup.
+  assert (NDch : NoDup (map fst children)) by (apply sort_children_nodup; exact NDdoc).
+  destruct (phase11_spec doc []) as [new [E11 [P1 P2]]]. rewrite app_nil_r in E11, P2.
+  assert (Hv : forall i it, In (i, it) children -> item_valid it = true) by (intros; eapply Hdoc; eauto).
+  assert (Hd : forall i it, In (i, it) children -> definite_item it = true -> is_placed i (phase11 doc []) = true).
+  { intros i it H D. rewrite E11. eapply P2; eauto. }
+  assert (Hpos1 : forall f, In f (areas (phase11 doc [])) -> area_pos f).
+  { intros f H. rewrite E11 in H. unfold areas in H. apply in_map_iff in H as [p [<- H]]. apply P1, H. }
+  assert (ND1 : NoDup (map fst (phase11 doc []))) by (apply phase11_nodup; auto; constructor).
+  destruct (phase12 colflow dense children (phase11 doc [])) as [l2|] eqn:E12.
+  2:{ exfalso. revert E12. apply phase12_fuel; auto. }
+  destruct (phase12_spec colflow dense children _ _ Hv Hd Hpos1 E12) as [C12 Q12].
+  pose proof (phase12_nodup colflow dense children _ _ ND1 E12) as ND2.
+  unfold grid_place_log. fold doc. fold children. rewrite E12.
+  set (s0 := if colflow then Z.max 1 tr else Z.max 1 tc).
+  destruct (phase132 colflow children l2 (0, s0)) as [[is1 is2a] rem] eqn:E132.
+  pose proof (phase132_filter colflow children l2 (0, s0)) as Frem. rewrite E132 in Frem. cbn [snd] in Frem.
+  destruct (phase132_spec colflow children l2 _ _ _ E132) as [B1 [B2 [R1 [R2 [R3 R4]]]]]. cbn [fst snd] in *.
+  destruct (phase133_spec colflow rem is1 is2a) as [B3 R5].
+  set (is2 := phase133 colflow rem is1 is2a) in *.
+  set (f0 := if colflow then Z.max 1 tc else Z.max 1 tr).
+  destruct (first_bounds colflow (areas l2) (0, f0)) as [if1 if2] eqn:EFB.
+  pose proof (first_bounds_spec colflow (areas l2) (0, f0)) as [FB1 [FB2 FB3]]. rewrite EFB in FB1, FB2, FB3. cbn [fst snd] in *.
+  exists (phase11 doc []), l2, is1, is2, if1, if2, rem.
+  split; [reflexivity|]. split; [rewrite E11; exact P1|]. split; [exact E12|]. split; [exact C12|].
+  split; [exact ND2|]. split; [exact Frem|].
+  assert (Hrem : forall i it, In (i, it) rem -> rem_ok colflow is1 is2 it /\ snd_within colflow is1 is2 it).
+  { intros i it H. destruct (R1 i it H) as [Hin L]. split.
+    - split; [eauto|]. split.
+      + destruct (Q12 i it Hin) as [Q | Q]; [|exact Q]. apply is_placed_lookup in L. congruence.
+      + intros N. rewrite <- (span133_auto colflow it (Hv i it Hin) N). eapply R5; eauto.
+    - intros k z E. destruct (R4 i it k z H E). cbn [fst snd] in *. lia. }
+  split; [exact Hrem|].
+  assert (Hchild : forall i, is_placed i l2 = true -> exists it, In (i, it) children).
+  { intros i Pl. destruct (phase12_only_first colflow dense children _ _ i E12 Pl) as [A | [it [p [A _]]]]; [|eauto].
+    apply phase11_only_def in A as [A | [it [A _]]]; [discriminate | exists it; apply sort_children_in; exact A]. }
+  split.
+  { intros [i a] Hin. cbn [snd]. split; [apply FB3; unfold areas; apply in_map_iff; exists (i, a); auto|].
+    assert (Pl : is_placed i l2 = true) by (apply is_placed_in, in_map_iff; exists (i, a); auto).
+    destruct (Hchild i Pl) as [it Hc]. pose proof (in_lookup i a l2 ND2 Hin) as L.
+    destruct (R3 i it a Hc L) as [W1 W2]. cbn [fst snd] in *. lia. }
+  split.
+  { intros i it Hc [FA1 FA2]. rewrite Frem. apply filter_In. split; [exact Hc|]. cbn [fst].
+    destruct (lookup_area i l2) as [a|] eqn:L; [|reflexivity]. exfalso.
+    assert (Pl : is_placed i l2 = true) by (apply is_placed_lookup_some; eauto).
+    destruct (phase12_only_first colflow dense children _ _ i E12 Pl) as [A | [it' [p [A B]]]].
+    - apply phase11_only_def in A as [A | [it' [A D]]]; [discriminate|].
+      rewrite (nodup_fst_unique doc i it' it NDdoc A (Hch i it Hc)) in D. unfold definite_item in D. rewrite FA1 in D. discriminate.
+    - rewrite (nodup_fst_unique children i it' it NDch A Hc) in B. unfold fst_s, fst_e in B. destruct colflow; congruence. }
+  split.
+  { intros i it Hc. destruct (lookup_area i l2) as [a|] eqn:L.
+    - left. apply is_placed_lookup_some. eauto.
+    - right. apply R2; auto. }
+  unfold bounds_of. destruct (phase14 colflow dense is1 is2 if1 rem _); destruct colflow; reflexivity.
+Qed.
+
+(* ========================================================================================== theorems *)
+
+(* termination of every count() / while loop of step 1 *)
+Theorem grid_place_fuel tc tr colflow dense items :
+  valid_items items -> grid_place tc tr colflow dense items <> OutOfFuel.
+Proof.
+  intros Hval. destruct (grid_place_setup tc tr colflow dense items Hval)
+    as [l1 [l2 [is1 [is2 [if1 [if2 [rem [_ [_ [_ [_ [_ [_ [Hrem [_ [_ [_ E]]]]]]]]]]]]]]]]].
+  unfold grid_place. rewrite E.
+  destruct (phase14 colflow dense is1 is2 if1 rem _) eqn:P; try discriminate.
+  exfalso. revert P. apply phase14_fuel. intros i it H. apply (Hrem i it H).
+Qed.
+
+(* Hang is only reported for a loop that really never exits (and only in sparse mode, for an item whose
+   first axis is `span n` while its second axis is given by a line) : see stale_search_diverges *)
+
+Lemma nth_error_map_seq {A} (f : nat -> A) n : forall s i, (i < n)%nat ->
+  nth_error (map f (seq s n)) i = Some (f (s + i)%nat).
+Proof.
+  induction n as [|n IH]; intros s i H; [lia|]. destruct i as [|i]; cbn.
+  - f_equal. f_equal. lia.
+  - rewrite IH by lia. f_equal. f_equal. lia.
+Qed.
+
+Lemma grid_place_lookup tc tr colflow dense items pl b :
+  grid_place tc tr colflow dense items = Ok (pl, b) ->
+  exists l, grid_place_log tc tr colflow dense items = Ok (l, b) /\ length pl = length items /\
+            forall i o, nth_error pl i = Some o -> (i < length items)%nat /\ o = lookup_area i l.
+Proof.
+  unfold grid_place. destruct (grid_place_log tc tr colflow dense items) as [[l b']| | |]; try discriminate.
+  intros H. inversion H; subst. exists l. split; [reflexivity|]. split; [rewrite map_length, seq_length; reflexivity|].
+  intros i o Hn. assert (Hi : (i < length items)%nat).
+  { assert (X : nth_error (map (fun i => lookup_area i l) (seq 0 (length items))) i <> None) by congruence.
+    apply nth_error_Some in X. rewrite map_length, seq_length in X. exact X. }
+  split; [exact Hi|]. rewrite nth_error_map_seq in Hn by exact Hi. inversion Hn. reflexivity.
+Qed.
+
+Lemma chain_pairwise base l : chain base l -> forall i a j b, In (i, a) l -> In (j, b) l -> i <> j ->
+  (In (i, a) base /\ In (j, b) base) \/ area_meets a b = false.
+Proof.
+  induction 1 as [|k c l C IH P M]; intros i a j b Hi Hj N; [auto|].
+  assert (D : forall q, In q l -> area_meets c (snd q) = false).
+  { intros q Hq. unfold intersect_with_children in M. destruct (area_meets c (snd q)) eqn:E; [|reflexivity].
+    assert (existsb (area_meets c) (areas l) = true) by (apply existsb_exists; exists (snd q); split; [apply in_map; exact Hq | exact E]).
+    congruence. }
+  destruct Hi as [Ei | Hi], Hj as [Ej | Hj].
+  - inversion Ei; inversion Ej; subst. contradiction.
+  - inversion Ei; subst. right. apply (D (j, b) Hj).
+  - inversion Ej; subst. right. rewrite area_meets_sym. apply (D (i, a) Hi).
+  - apply IH; auto.
+Qed.
+
+Lemma doc_nth (items : list item) i (it : item) : In (i, it) (index_from 0 items) <-> nth_error items i = Some it.
+Proof. rewrite (index_from_in items 0%nat i it), Nat.sub_0_r. split; [tauto | split; [lia | assumption]]. Qed.
+
+(* auto-placed items never overlap anything: two different items share a cell only if both are placed by their
+   line numbers on both axes (css-grid lets those overlap) *)
+Theorem grid_no_overlap tc tr colflow dense items pl b :
+  valid_items items -> grid_place tc tr colflow dense items = Ok (pl, b) ->
+  forall i j iti itj ai aj, i <> j ->
+    nth_error items i = Some iti -> nth_error items j = Some itj ->
+    nth_error pl i = Some (Some ai) -> nth_error pl j = Some (Some aj) ->
+    definite_item iti && definite_item itj = false ->
+    forall cx cy, in_area ai cx cy -> in_area aj cx cy -> False.
+Proof.
+  intros Hval Hok i j iti itj ai aj N Ii Ij Pi Pj D cx cy Ci Cj.
+  destruct (grid_place_lookup _ _ _ _ _ _ _ Hok) as [l [El [_ Hl]]].
+  destruct (grid_place_setup tc tr colflow dense items Hval)
+    as [l1 [l2 [is1 [is2 [if1 [if2 [rem [E1 [P1 [_ [C12 [_ [_ [_ [_ [_ [_ E]]]]]]]]]]]]]]]]].
+  rewrite E in El. destruct (phase14 colflow dense is1 is2 if1 rem _) as [st| | |] eqn:P14; try discriminate.
+  inversion El; subst l. destruct (phase14_chain _ _ _ _ _ _ _ _ P14) as [C14 _]. cbn [st_log] in C14.
+  pose proof (chain_trans _ _ _ C12 C14) as C.
+  destruct (Hl i _ Pi) as [_ Li]. destruct (Hl j _ Pj) as [_ Lj]. symmetry in Li, Lj.
+  apply lookup_in in Li, Lj.
+  destruct (chain_pairwise _ _ C i ai j aj Li Lj N) as [[Bi Bj] | M].
+  - destruct (P1 _ Bi) as [_ [it1 [A1 D1]]]. destruct (P1 _ Bj) as [_ [it2 [A2 D2]]]. cbn [fst] in *.
+    apply doc_nth in A1, A2. assert (it1 = iti) by congruence. assert (it2 = itj) by congruence. subst.
+    rewrite D1, D2 in D. discriminate.
+  - exact (area_meets_false_disjoint _ _ cx cy M Ci Cj).
+Qed.
+
+(* every item gets an area, with at least one track on each axis *)
+Theorem grid_all_placed tc tr colflow dense items pl b :
+  valid_items items -> grid_place tc tr colflow dense items = Ok (pl, b) ->
+  length pl = length items /\
+  forall i, (i < length items)%nat -> exists x y w h, nth_error pl i = Some (Some (x, y, w, h)) /\ 1 <= w /\ 1 <= h.
+Proof.
+  intros Hval Hok. destruct (grid_place_lookup _ _ _ _ _ _ _ Hok) as [l [El [Hlen Hl]]]. split; [exact Hlen|].
+  destruct (grid_place_setup tc tr colflow dense items Hval)
+    as [l1 [l2 [is1 [is2 [if1 [if2 [rem [E1 [P1 [_ [C12 [_ [_ [_ [_ [_ [Hall E]]]]]]]]]]]]]]]]].
+  rewrite E in El. destruct (phase14 colflow dense is1 is2 if1 rem _) as [st| | |] eqn:P14; try discriminate.
+  inversion El; subst l. destruct (phase14_chain _ _ _ _ _ _ _ _ P14) as [C14 Pl14]. cbn [st_log] in C14.
+  pose proof (chain_trans _ _ _ C12 C14) as C.
+  intros i Hi. destruct (nth_error items i) as [it|] eqn:Ei; [|apply nth_error_None in Ei; lia].
+  assert (Hc : In (i, it) (sort_children (index_from 0 items))) by (apply sort_children_in, doc_nth; exact Ei).
+  assert (Pl : is_placed i (st_log st) = true).
+  { destruct (Hall i it Hc) as [A | A]; [exact (chain_placed _ _ i C14 A) | exact (Pl14 i it A)]. }
+  apply is_placed_lookup_some in Pl as [a La].
+  assert (Hn : nth_error pl i = Some (Some a)).
+  { destruct (nth_error pl i) as [o|] eqn:En; [|apply nth_error_None in En; lia]. destruct (Hl i o En) as [_ ->]. rewrite La. reflexivity. }
+  assert (Pa : area_pos a).
+  { apply (chain_pos _ _ C).
+    - intros f Hf. apply in_map_iff in Hf as [p [<- Hp]]. apply P1, Hp.
+    - apply lookup_in in La. apply in_map_iff. exists (i, a). auto. }
+  destruct a as [[[x y] w] h]. exists x, y, w, h. split; [exact Hn | exact Pa].
+Qed.
+
+(* every area lies inside the second-axis bounds of the implicit grid computed by 1.3, and not before the
+   first-axis start computed by 1.4 *)
+Theorem grid_inside_implicit_bounds tc tr colflow dense items pl x1 x2 y1 y2 :
+  valid_items items -> grid_place tc tr colflow dense items = Ok (pl, (x1, x2, y1, y2)) ->
+  forall i x y w h, nth_error pl i = Some (Some (x, y, w, h)) ->
+    if colflow then x1 <= x /\ y1 <= y /\ y + h <= y2 else y1 <= y /\ x1 <= x /\ x + w <= x2.
+Proof.
+  intros Hval Hok i x y w h Pi.
+  destruct (grid_place_lookup _ _ _ _ _ _ _ Hok) as [l [El [_ Hl]]].
+  destruct (grid_place_setup tc tr colflow dense items Hval)
+    as [l1 [l2 [is1 [is2 [if1 [if2 [rem [E1 [P1 [_ [C12 [_ [_ [Hrem [B2 [_ [_ E]]]]]]]]]]]]]]]]].
+  rewrite E in El. destruct (phase14 colflow dense is1 is2 if1 rem _) as [st| | |] eqn:P14; try discriminate.
+  inversion El as [[El1 El2]]. clear El. subst l.
+  destruct (phase14_inv colflow dense is1 is2 if1 rem _ _ Hrem) with (3 := P14) as [_ [_ [_ [new [En [_ Bn]]]]]];
+    [cbn; lia | cbn; lia |]. cbn [st_log] in En.
+  destruct (Hl i _ Pi) as [_ Li]. symmetry in Li. apply lookup_in in Li. rewrite En in Li.
+  assert (B : if1 <= fst (first_of colflow (x, y, w, h)) /\ is1 <= fst (second_of colflow (x, y, w, h)) /\
+              fst (second_of colflow (x, y, w, h)) + snd (second_of colflow (x, y, w, h)) <= is2).
+  { apply in_app_or in Li as [Li | Li]; [apply (Bn _ Li) | apply (B2 _ Li)]. }
+  unfold bounds_of, first_of, second_of in *. destruct colflow; inversion El2; subst; cbn in B; lia.
+Qed.
+
+Lemma phase14_split colflow dense is1 is2 if1 r1 c r2 st st' :
+  phase14 colflow dense is1 is2 if1 (r1 ++ c :: r2) st = Ok st' ->
+  exists s1 s2, phase14 colflow dense is1 is2 if1 r1 st = Ok s1 /\ step14 colflow dense is1 is2 if1 s1 c = Ok s2 /\
+                phase14 colflow dense is1 is2 if1 r2 s2 = Ok st'.
+Proof.
+  rewrite phase14_app. destruct (phase14 colflow dense is1 is2 if1 r1 st) as [s1| | |]; try discriminate.
+  cbn [phase14]. destruct (step14 colflow dense is1 is2 if1 s1 c) as [s2| | |]; try discriminate.
+  intros H. exists s1, s2. auto.
+Qed.
+
+Lemma filter_split {A} (f : A -> bool) l1 x l2 y l3 :
+  f x = true -> f y = true ->
+  filter f (l1 ++ x :: l2 ++ y :: l3) = filter f l1 ++ x :: filter f l2 ++ y :: filter f l3.
+Proof. intros Hx Hy. rewrite filter_app. cbn. rewrite Hx, filter_app. cbn. rewrite Hy. reflexivity. Qed.
+
+(* sparse packing: among the fully automatic items, taken in order-modified document order, the first-axis
+   (row for grid-auto-flow: row) position never decreases *)
+Theorem grid_row_major_order tc tr colflow items l b :
+  valid_items items -> grid_place_log tc tr colflow false items = Ok (l, b) ->
+  forall ch1 i it ch2 j jt ch3,
+    sort_children (index_from 0 items) = ch1 ++ (i, it) :: ch2 ++ (j, jt) :: ch3 ->
+    fully_auto it -> fully_auto jt ->
+    forall a c, lookup_area i l = Some a -> lookup_area j l = Some c ->
+    fst (first_of colflow a) <= fst (first_of colflow c).
+Proof.
+  intros Hval El ch1 i it ch2 j jt ch3 Ech Fi Fj a c La Lc.
+  destruct (grid_place_setup tc tr colflow false items Hval)
+    as [l1 [l2 [is1 [is2 [if1 [if2 [rem [E1 [P1 [_ [C12 [ND2 [Frem [Hrem [B2 [Hfa [_ E]]]]]]]]]]]]]]]]].
+  rewrite E in El. destruct (phase14 colflow false is1 is2 if1 rem _) as [st| | |] eqn:P14; try discriminate.
+  inversion El; subst l b. clear El.
+  set (P := fun p : nat * item => match lookup_area (fst p) l2 with None => true | Some _ => false end) in *.
+  assert (Ii : In (i, it) rem) by (apply Hfa; [rewrite Ech; apply in_or_app; right; left; reflexivity | exact Fi]).
+  assert (Ij : In (j, jt) rem).
+  { apply Hfa; [rewrite Ech; apply in_or_app; right; right; apply in_or_app; right; left; reflexivity | exact Fj]. }
+  assert (Pi : P (i, it) = true) by (rewrite Frem in Ii; apply filter_In in Ii; tauto).
+  assert (Pj : P (j, jt) = true) by (rewrite Frem in Ij; apply filter_In in Ij; tauto).
+  rewrite Ech, (filter_split P _ _ _ _ _ Pi Pj) in Frem.
+  set (r1 := filter P ch1) in *. set (r2 := filter P ch2) in *. set (r3 := filter P ch3) in *.
+  assert (ND : NoDup (map fst rem)).
+  { assert (NDc : NoDup (map fst (sort_children (index_from 0 items)))) by (apply sort_children_nodup, index_from_nodup).
+    rewrite Ech in NDc. subst rem. clear - NDc.
+    assert (G : forall (l : list (nat * item)), NoDup (map fst l) -> NoDup (map fst (filter P l))).
+    { induction l as [|p r IH]; cbn; [auto|]. intros H. inversion H; subst. destruct (P p); cbn; [|auto].
+      constructor; [|auto]. intros X. apply H2. apply in_map_iff in X as [q [X1 X2]]. apply filter_In in X2 as [X2 _].
+      apply in_map_iff. exists q; auto. }
+    apply G in NDc. rewrite (filter_split P _ _ _ _ _ Pi Pj) in NDc. exact NDc. }
+  rewrite Frem in P14, ND, Hrem.
+  destruct (phase14_split _ _ _ _ _ _ _ _ _ _ P14) as [s1 [s2 [Q1 [Q2 Q3]]]].
+  destruct (phase14_split _ _ _ _ _ _ _ _ _ _ Q3) as [s3 [s4 [Q4 [Q5 Q6]]]].
+  assert (H1 : forall k kt, In (k, kt) r1 -> rem_ok colflow is1 is2 kt /\ snd_within colflow is1 is2 kt).
+  { intros k kt H. apply (Hrem k kt). apply in_or_app. left. exact H. }
+  assert (H2 : forall k kt, In (k, kt) r2 -> rem_ok colflow is1 is2 kt /\ snd_within colflow is1 is2 kt).
+  { intros k kt H. apply (Hrem k kt). apply in_or_app. right. right. apply in_or_app. left. exact H. }
+  assert (H3 : forall k kt, In (k, kt) r3 -> rem_ok colflow is1 is2 kt /\ snd_within colflow is1 is2 kt).
+  { intros k kt H. apply (Hrem k kt). apply in_or_app. right. right. apply in_or_app. right. right. exact H. }
+  destruct (Hrem i it) as [Ri Wi]; [apply in_or_app; right; left; reflexivity|].
+  destruct (Hrem j jt) as [Rj Wj]; [apply in_or_app; right; right; apply in_or_app; right; left; reflexivity|].
+  destruct (phase14_inv colflow false is1 is2 if1 r1 _ _ H1) with (3 := Q1) as [A1 [A2 [_ [n1 [L1 [M1 _]]]]]];
+    [cbn; lia | cbn; lia |]. cbn [st_log] in L1.
+  destruct (step14_inv colflow false is1 is2 if1 _ _ _ _ Ri Wi A1 A2 Q2) as [ai [L2 [A3 [A4 [_ [_ [_ A5]]]]]]].
+  destruct (phase14_inv colflow false is1 is2 if1 r2 _ _ H2 A3 A4 Q4) as [A6 [A7 [A8 [n3 [L3 [M3 _]]]]]].
+  destruct (step14_inv colflow false is1 is2 if1 _ _ _ _ Rj Wj A6 A7 Q5) as [aj [L4 [A9 [A10 [A11 [_ [_ A12]]]]]]].
+  destruct (phase14_inv colflow false is1 is2 if1 r3 _ _ H3 A9 A10 Q6) as [_ [_ [_ [n5 [L5 [M5 _]]]]]].
+  destruct Fi as [Fi1 Fi2]. destruct Fj as [Fj1 Fj2].
+  assert (Si : get_placement (snd_s colflow it) (snd_e colflow it) = None) by (unfold snd_s, snd_e; destruct colflow; assumption).
+  assert (Sj : get_placement (snd_s colflow jt) (snd_e colflow jt) = None) by (unfold snd_s, snd_e; destruct colflow; assumption).
+  specialize (A5 Si eq_refl). specialize (A12 Sj eq_refl). specialize (A8 eq_refl). specialize (A11 eq_refl).
+  (* the final log and the lookups *)
+  rewrite map_app in ND. cbn [map] in ND. rewrite map_app in ND. cbn [map fst] in ND.
+  assert (Lf : st_log st = n5 ++ (j, aj) :: n3 ++ (i, ai) :: n1 ++ l2).
+  { rewrite L5, L4, L3, L2, L1. reflexivity. }
+  assert (Nj : ~ In j (map fst n5)).
+  { rewrite M5, <- in_rev. intros X. apply NoDup_remove_2 in ND. apply NoDup_remove_2 in ND. 
+    apply NoDup_app_remove_l in ND. inversion ND; subst. apply H5. exact X. }
+  assert (Ni : ~ In i (map fst (n5 ++ (j, aj) :: n3))).
+  { rewrite map_app. cbn [map fst]. rewrite M5, M3. intros X. apply NoDup_remove_2 in ND. apply ND.
+    apply in_or_app. right. apply in_app_or in X as [X | [X | X]].
+    - apply in_or_app. right. right. apply in_rev. exact X.
+    - subst. apply in_or_app. right. left. reflexivity.
+    - apply in_or_app. left. apply in_rev. exact X. }
+  rewrite Lf in La, Lc.
+  rewrite (lookup_app_not_in j n5 _ Nj) in Lc. cbn [lookup_area] in Lc. rewrite Nat.eqb_refl in Lc.
+  replace (n5 ++ (j, aj) :: n3 ++ (i, ai) :: n1 ++ l2) with ((n5 ++ (j, aj) :: n3) ++ (i, ai) :: n1 ++ l2) in La
+    by (rewrite <- app_assoc; reflexivity).
+  rewrite (lookup_app_not_in i _ _ Ni) in La. cbn [lookup_area] in La. rewrite Nat.eqb_refl in La.
+  inversion La; inversion Lc; subst. lia.
+Qed.
